@@ -2617,14 +2617,16 @@ fn gen_vedits(r: &mut Rng, d: &TreeDesc) -> Vec<VEdit> {
 }
 
 /// TaffyTree: layout, the edits through the public mutators, layout again
-fn taffy_relayout(d: &TreeDesc, a1: Size<AvailableSpace>, a2: Size<AvailableSpace>, rounding: bool, edits: &[VEdit]) -> Result<LL, String> {
+fn taffy_relayout(d: &TreeDesc, a1: Size<AvailableSpace>, a2: Size<AvailableSpace>, rounding: (bool, bool), edits: &[VEdit]) -> Result<LL, String> {
     taffy_relayout_with(d, a1, a2, rounding, edits, false)
 }
 
 /// `dirty_up`: the neutraliser of the known finding "attach under a clean hidden node" — after a move, mark every ancestor
 /// of the new parent dirty one by one (`mark_dirty` itself stops at the first empty cache)
-fn taffy_relayout_with(d: &TreeDesc, a1: Size<AvailableSpace>, a2: Size<AvailableSpace>, rounding: bool, edits: &[VEdit], dirty_up: bool) -> Result<LL, String> {
-    let (mut t, root) = layout_fresh(d, a1, rounding)?;
+/// `rounding` = (rounding during the first pass, rounding during the second pass): the toggle goes through
+/// `enable_rounding` / `disable_rounding` between the passes
+fn taffy_relayout_with(d: &TreeDesc, a1: Size<AvailableSpace>, a2: Size<AvailableSpace>, rounding: (bool, bool), edits: &[VEdit], dirty_up: bool) -> Result<LL, String> {
+    let (mut t, root) = layout_fresh(d, a1, rounding.0)?;
     catch(move || {
         let mut ids = vec![];
         preorder_ids(&t, root, &mut ids);
@@ -2652,6 +2654,13 @@ fn taffy_relayout_with(d: &TreeDesc, a1: Size<AvailableSpace>, a2: Size<Availabl
                 }
             }
         }
+        if rounding.1 != rounding.0 {
+            if rounding.1 {
+                t.enable_rounding()
+            } else {
+                t.disable_rounding()
+            }
+        }
         t.compute_layout_with_measure(root, a2, |k, a, _id, ctx, _style| measure(k, a, ctx)).unwrap();
         // by node (original preorder index), not by the preorder of the edited tree
         (ids.iter().map(|id| *t.unrounded_layout(*id)).collect(), ids.iter().map(|id| *t.layout(*id).unwrap()).collect())
@@ -2660,11 +2669,11 @@ fn taffy_relayout_with(d: &TreeDesc, a1: Size<AvailableSpace>, a2: Size<Availabl
 
 /// the documented low-level driver: layout, the edits (store the style; clear the cache of the node and of every
 /// ancestor, as the `CacheTree` / `Cache::clear` documentation prescribes for a changed node), layout again
-fn vtree_relayout(d: &TreeDesc, a1: Size<AvailableSpace>, a2: Size<AvailableSpace>, rounding: bool, edits: &[VEdit]) -> Result<LL, String> {
+fn vtree_relayout(d: &TreeDesc, a1: Size<AvailableSpace>, a2: Size<AvailableSpace>, rounding: (bool, bool), edits: &[VEdit]) -> Result<LL, String> {
     catch(|| {
         let mut t = VTree::new(false, u64::MAX);
         let root = t.add(d);
-        t.compute_layout(root, a1, rounding);
+        t.compute_layout(root, a1, rounding.0);
         let mut parent = vec![usize::MAX; t.nodes.len()];
         for i in 0..t.nodes.len() {
             for &c in &t.nodes[i].children.clone() {
@@ -2696,9 +2705,9 @@ fn vtree_relayout(d: &TreeDesc, a1: Size<AvailableSpace>, a2: Size<AvailableSpac
                 }
             }
         }
-        t.compute_layout(root, a2, rounding);
+        t.compute_layout(root, a2, rounding.1);
         let unr: Vec<Layout> = t.nodes.iter().map(|n| n.unrounded_layout).collect();
-        let fin: Vec<Layout> = t.nodes.iter().map(|n| if rounding { n.final_layout } else { n.unrounded_layout }).collect();
+        let fin: Vec<Layout> = t.nodes.iter().map(|n| if rounding.1 { n.final_layout } else { n.unrounded_layout }).collect();
         (unr, fin)
     })
 }
@@ -2763,8 +2772,22 @@ pub fn run_c17(cfg: &Cfg, out: &mut Out) -> String {
         out.count(if rounding { "rounding:on" } else { "rounding:off" });
         // relayout stream: both drivers lay out, take the same edits, lay out again (real cache)
         if idx % 2 == 0 {
-            let edits = gen_vedits(&mut r, &d);
+            let mut edits = gen_vedits(&mut r, &d);
             let a2 = if r.chance(1, 2) { avail } else { gen_available(&mut r) };
+            // one case in four toggles rounding between the passes (enable_rounding / disable_rounding invalidate nothing), and
+            // one in five of all cases has no edit at all: with the same available space the second pass is then a pure cache hit
+            let rounding = (rounding, if idx % 8 == 2 { !rounding } else { rounding });
+            if idx % 10 == 2 || idx % 10 == 6 {
+                edits.clear();
+            }
+            out.count(match rounding {
+                (a, b) if a == b => "relayout-rounding:unchanged",
+                (false, true) => "relayout-rounding:off-then-on",
+                _ => "relayout-rounding:on-then-off",
+            });
+            if edits.is_empty() {
+                out.count(if a2 == avail { "relayout:no-edit-same-available-space" } else { "relayout:no-edit-other-available-space" });
+            }
             let both = |m: Mode| {
                 let _g = ModeGuard::set(m);
                 (taffy_relayout(&d, avail, a2, rounding, &edits), vtree_relayout(&d, avail, a2, rounding, &edits))
@@ -2808,7 +2831,7 @@ pub fn run_c17(cfg: &Cfg, out: &mut Out) -> String {
                         out.count(&format!("relayout:{sig}"));
                         let what = if !same_layouts(&a.0, &b.0) { first_diff(&a.0, &b.0) } else { first_diff(&a.1, &b.1) };
                         out.impl_violation(format!(
-                            "sig:{sig} TaffyTree ≠ documented low-level driver after layout; {}; layout: {}; avail {} then {} rounding {rounding}; tree: {}",
+                            "sig:{sig} TaffyTree ≠ documented low-level driver after layout; {}; layout: {}; avail {} then {} rounding {rounding:?}; tree: {}",
                             vedits_brief(&edits),
                             what,
                             avail_brief(avail),
